@@ -254,8 +254,9 @@ func (p *printer) expr(e *E, sp string) {
 		}
 		// a two-word test is two name tokens
 		words := strings.Split(e.S, " ")
-		for _, w := range words {
-			p.tok(w, "word", " ", "")
+		for i, w := range words {
+			// the test is anchored at the first word of its name
+			p.tok(w, "word", " ", map[bool]string{true: "Test", false: ""}[i == 0])
 		}
 		if len(e.A) > 1 {
 			p.args(e.A[1:])
